@@ -73,8 +73,19 @@ type ObsListener struct {
 	Closed bool         `json:"closed"`
 }
 
+// EvCheck: a notification with the sync it belongs to (family "event")
+type EvCheck struct {
+	Ev     Ev   `json:"ev"`
+	Sid    int  `json:"sid"`
+	Async  bool `json:"async"`
+	Pub    int  `json:"pub"`
+	Cid    int  `json:"cid"`
+	Blocks int  `json:"blocks"`
+}
+
 type Result struct {
 	Sc        Scenario      `json:"scenario"`
+	Events    []EvCheck     `json:"events,omitempty"`
 	Fwd       []Ev          `json:"fwd"`
 	Listeners []ObsListener `json:"listeners"`
 	DoneOrder map[int][]int `json:"done_order"` // per publisher: sync ids in order of completion (event-producing only)
@@ -339,7 +350,7 @@ func runScenario(sc Scenario) (res Result) {
 		}
 		wg.Wait()
 		// the round is over when every owed event has reached the reference listener
-		deadline := time.Now().Add(2 * watchdog)
+		deadline := subdrv.NewDeadline(2 * watchdog)
 		for {
 			ref.mu.Lock()
 			n := len(ref.recv)
@@ -347,7 +358,7 @@ func runScenario(sc Scenario) (res Result) {
 			if n >= expected {
 				break
 			}
-			if time.Now().After(deadline) {
+			if deadline.Expired() {
 				res.fail("event:missing", fmt.Sprintf("round %d: %d notifications owed, the listener registered from the start received %d", ri, expected, n))
 				break
 			}
@@ -383,7 +394,7 @@ func runScenario(sc Scenario) (res Result) {
 		close(l.start)
 		select {
 		case <-l.done:
-		case <-time.After(watchdog):
+		case <-subdrv.After(watchdog):
 			res.fail("listener:not-closed:"+l.spec.Kind, fmt.Sprintf("a %s listener's channel was not closed within %v of Close / its cancel", l.spec.Kind, watchdog))
 		}
 	}
@@ -437,6 +448,9 @@ func runScenario(sc Scenario) (res Result) {
 			continue
 		}
 		seen[a.sid]++
+		if !e.Err && !a.expErr {
+			res.Events = append(res.Events, EvCheck{Ev: e, Sid: a.sid, Async: a.Kind == "announce", Pub: a.Pub, Cid: a.head, Blocks: a.expCnt})
+		}
 		if e.Err != a.expErr {
 			res.fail("event:wrong-kind", fmt.Sprintf("sync %d (%s pub %d fail=%v): notification has err=%v", a.sid, a.Kind, a.Pub, a.Fail, e.Err))
 		} else if !e.Err && e.Cnt != a.expCnt {
@@ -681,6 +695,7 @@ func main() {
 	defer c.Finish()
 	c.Family("delivery", []string{"From Model Require Import C14_Events."}, "valid_delivery", 250)
 	c.Family("order", []string{"From Model Require Import C14_Events."}, "valid_order", 400)
+	c.Family("event", []string{"From Model Require Import C14_Events."}, "valid_event", 400)
 	c.Res.Rule = "seeded scenarios on a real Subscriber: 1..3 HTTP publishers, 2..4 rounds of concurrent explicit syncs / direct announcements / failing syncs, 1..4 listeners (fast, slow, stalled) registered and cancelled concurrently with delivery, yield points perturbed at random (seeded), then Close and drain; plus targeted schedules (two concurrent explicit syncs of one publisher with the first held before its event) and a stalled-listener timing comparison; non-trivial = at least two events and a listener registered or cancelled during delivery, or a stalled listener with queued events"
 
 	if c.Replay != "" {
@@ -695,6 +710,10 @@ func main() {
 			r = runTiming(sc)
 		} else if sc.Kind == "backlog" {
 			r = runBacklog(sc)
+		} else if sc.Kind == "entries-overlap" {
+			r = runEntriesOverlap(sc)
+		} else if sc.Kind == "close-during-sync" {
+			r = runCloseDuringSync(sc)
 		} else {
 			r = runScenario(sc)
 		}
@@ -720,6 +739,25 @@ func main() {
 		sc := Scenario{Kind: "timing", Seed: c.Seed, NPubs: 1}
 		r := runTiming(sc)
 		record(c, r)
+	}
+	// an entries sync overlapping an advertisement sync of the same publisher
+	for _, v := range []string{"entries-first", "ad-first"} {
+		sc := Scenario{Kind: "entries-overlap", Seed: c.Seed, NPubs: 1, Rounds: [][]Action{{{Pub: 0, Kind: v}}}}
+		record(c, runEntriesOverlap(sc))
+	}
+	// a sync that completes while Close is in progress, many listeners
+	for i, pt := range []string{"sync:handled", "event:latest-set", "handle:unlocking"} {
+		sc := Scenario{Kind: "close-during-sync", Seed: c.Seed, NPubs: 1, Rounds: [][]Action{{{Pub: 0, Kind: pt}}}}
+		for k := 0; k < 8+4*i; k++ {
+			kind := "fast"
+			if k%3 == 1 {
+				kind = "stalled"
+			} else if k%3 == 2 {
+				kind = "slow"
+			}
+			sc.Listeners = append(sc.Listeners, ListenerSpec{Kind: kind, RegRound: -1, CanRound: -1})
+		}
+		record(c, runCloseDuringSync(sc))
 	}
 	// long backlogs, around typical buffer sizes
 	sizes := []int{63, 64, 65, 128, 129}
@@ -777,6 +815,13 @@ func record(c *vlib.Ctx, r Result) {
 	}
 	if r.Sc.Kind != "timing" {
 		c.Case("delivery", coqCase(r), r.Sc)
+	}
+	for _, ec := range r.Events {
+		kind := fmt.Sprintf("(KExp %d %d true)", ec.Pub, ec.Cid)
+		if ec.Async {
+			kind = fmt.Sprintf("(KAsync %d %d)", ec.Pub, ec.Cid)
+		}
+		c.Case("event", fmt.Sprintf("(%s, (%d%%nat, %s, %d))", coqEv(ec.Ev), ec.Sid, kind, ec.Blocks), r.Sc)
 	}
 	pubsSorted := make([]int, 0, len(r.DoneOrder))
 	for p := range r.DoneOrder {
